@@ -317,7 +317,7 @@ def gen_writeread(rng):
         t0 = 0          # the format has no file offset: the first tempo point is at 0
     case = dict(claim="writeread", game=game, r=R(Fr(p, q)), keys=keys, t0=t0, bpms=bpms, hits=hits, holds=holds)
     if game == "osu":
-        case["preview"] = rng.choice([0, 48 * p * rng.randint(1, 500)])
+        case["preview"] = rng.choice([0, 48 * p * rng.randint(1, 500), 48 * p * rng.randint(1, 500), -1])
         case["samples"] = [dict(t=48 * p * rng.randint(0, 900), vol=rng.randint(1, 100)) for _ in range(rng.choice([0, 0, 1, 3]))]
         case["svs"] = [dict(t=48 * p * rng.randint(0, 900), m=rng.choice([0.5, 2.0, 1.25])) for _ in range(rng.choice([0, 0, 2]))]
     if game == "sm":
@@ -423,7 +423,7 @@ def valid(case):
                     if s["t"] % (48 * p):
                         return False
             for k in ("preview", "sample_start", "sample_length"):
-                if k in case and (case[k] < 0 or case[k] % (48 * p)):
+                if k in case and not (k == "preview" and case[k] == -1) and (case[k] < 0 or case[k] % (48 * p)):
                     return False
             return True
         rs = [case["r"]] if cl in ("scale", "one") else [case["a"], case["b"]]
@@ -714,6 +714,32 @@ def max_dev(a, b):
     return 0.0
 
 
+def has_marker(game, before):
+    """open finding N13a: an osu map whose preview_time is the "no preview point" marker (negative)"""
+    return game == "osu" and any(m.get("preview") is not None and F(m["preview"]) < 0 for m in before["maps"])
+
+
+def restore_markers(before, out):
+    """`out` with the preview marker of every marker map put back (what the specification demands there)"""
+    o = _copy.deepcopy(out)
+    for mb, mo in zip(before["maps"], o["maps"]):
+        if mb.get("preview") is not None and F(mb["preview"]) < 0:
+            mo["preview"] = mb["preview"]
+    return o
+
+
+def spec_verdict(drv, game, kind, r, eps, before, out):
+    """-> (dom, "ok" | "n13a" | "fail"): the specification on `out`; "n13a" = it fails only in the preview marker"""
+    sp = drv.call("c13.set_scales", game=game, kind=kind, r=R(r), eps=eps, set=before, out=out)["ok"]
+    if sp["holds"]:
+        return sp["dom"], "ok"
+    if has_marker(game, before) and len(before["maps"]) == len(out["maps"]):
+        sp2 = drv.call("c13.set_scales", game=game, kind=kind, r=R(r), eps=eps, set=before, out=restore_markers(before, out))["ok"]
+        if sp2["holds"]:
+            return sp["dom"], "n13a"
+    return sp["dom"], "fail"
+
+
 def kind_of(game, level):
     return "sm" if (game == "sm" and level == "set") else "base"
 
@@ -785,12 +811,12 @@ def run_rate(case, drv):
             detail[f"aliased_{k}"] = True
     # specification on the implementation's output
     r_one = routes["one"][0]
-    sp = None
+    marker_only = []          # specification failures that are exactly the open finding N13a
     if "one" in outs:
-        sp = drv.call("c13.set_scales", game=game, kind=kind, r=R(r_one), eps=eps, set=before, out=outs["one"])["ok"]
-        dom = sp["dom"]
-        if not sp["holds"]:
+        dom, v = spec_verdict(drv, game, kind, r_one, eps, before, outs["one"])
+        if v != "ok":
             ok = False
+            marker_only.append(v == "n13a")
             detail["spec"] = dict(r=str(r_one), inp=before, out=outs["one"],
                                   want=drv.call("c13.scale_set", game=game, kind=kind, r=R(r_one), set=before)["ok"])
     else:
@@ -814,10 +840,11 @@ def run_rate(case, drv):
             if not drv.call("c13.close_set", eps=eps, want=outs["one"], got=outs["two"])["ok"]:
                 ok = False
                 detail["comp"] = dict(one=outs["one"], two=outs["two"])
-            spa = drv.call("c13.set_scales", game=game, kind=kind, r=R(F(case["a"]) * F(case["b"])), eps=(eps if stream == "E" else R(2 * EPS_T)),
-                           set=before, out=outs["two"])["ok"]
-            if not spa["holds"]:
+            _, v2 = spec_verdict(drv, game, kind, F(case["a"]) * F(case["b"]), (eps if stream == "E" else R(2 * EPS_T)),
+                                 before, outs["two"])
+            if v2 != "ok":
                 ok = False
+                marker_only.append(v2 == "n13a")
                 detail["comp_spec"] = dict(out=outs["two"])
     has_time = any(f["rows"] for m in before["maps"] for _, f in m["lists"])
     nontrivial = has_time and any(r != 1 for v in routes.values() for r in v)
@@ -825,7 +852,12 @@ def run_rate(case, drv):
         tags.append("all-empty")
     if any(not f["rows"] for m in before["maps"] for _, f in m["lists"]):
         tags.append("some-empty-list")
-    res = dict(claim=claim, ok=ok, agree=agree, dom=bool(dom), kf=None, tags=tags, nontrivial=nontrivial, maxdev=maxdev)
+    kf = None
+    other_failures = [k for k in detail if k not in ("spec", "comp_spec") and not k.startswith("corr_")]
+    if not ok and marker_only and all(marker_only) and not other_failures:
+        kf = "N13a"
+        tags.append("preview-marker")
+    res = dict(claim=claim, ok=ok, agree=agree, dom=bool(dom), kf=kf, tags=tags, nontrivial=nontrivial, maxdev=maxdev)
     if not (ok and agree):
         res["detail"] = detail
     return res
@@ -1022,9 +1054,12 @@ def run_writeread(case, drv):
     # ... and the un-rated chart, as read from its file, must survive the format's own round trip
     stable = drv.call("c13.close_set", eps=R(EPS_WR), want=c0, got=c0_again)["ok"] if c0_again is not None else False
     # in-memory result against the specification (as in claim `scale`, on the format's fields)
-    sp_mem = drv.call("c13.set_scales", game=game, kind=kind, r=R(r), eps=R(EPS_T), set=c0, out=mem)["ok"]
+    _, v_mem = spec_verdict(drv, game, kind, r, R(EPS_T), c0, mem)
     # read-back of the written rated chart against the specification: the rated timeline
-    sp = drv.call("c13.set_scales", game=game, kind=kind, r=R(r), eps=R(EPS_WR), set=c0, out=got)["ok"]
+    d_wr, v_wr = spec_verdict(drv, game, kind, r, R(EPS_WR), c0, got)
+    marker = "n13a" in (v_mem, v_wr) and "fail" not in (v_mem, v_wr)
+    sp_mem = dict(holds=v_mem != "fail")
+    sp = dict(holds=v_wr != "fail", dom=d_wr)
     ok = sp["holds"] and sp_mem["holds"]
     kf = None
     dom = bool(sp["dom"])
@@ -1035,6 +1070,10 @@ def run_writeread(case, drv):
             kf = "D05"          # BMS long-note tails are paired in file order: not caused by the rate change
         else:
             ok = bool(sp_mem["holds"])   # no verdict on the file level: the format does not carry this chart
+    if ok and marker and kf is None:
+        # everything scales except that osu's "no preview point" marker was rated (and written as a preview point)
+        ok, kf, dom = False, "N13a", False
+        tags.append("preview-marker")
     if not ok:
         detail = dict(r=str(r), base=c0, rated_in_memory=mem, read_back=got, base_again=c0_again,
                       want=drv.call("c13.scale_set", game=game, kind=kind, r=R(r), set=c0)["ok"])
